@@ -44,6 +44,12 @@ def rec(n, tag, out):
         out.append(('ret', tag + 'i', inner))
     return 'r' + tag
 
+def hop(n, tag, out):
+    if n > 0:
+        inner = relay(hop, n - 1, tag + 'h', out)  #L:hop_call
+        out.append(('ret', tag + 'h', inner))
+    return 'r' + tag
+
 class Base:
     def work(self, tag, out):
         return 'rB' + tag
@@ -98,6 +104,8 @@ def drive(shape, tag, out):
             restore_config()
         elif shape == 'rec':
             v = rec(2, tag, out)
+        elif shape == 'hop':
+            v = hop(2, tag, out)
         elif shape == 'super':
             v = Child().work(tag, out)
         elif shape == 'catch':
@@ -120,9 +128,11 @@ def tmain(tid, acts, out):
     for j, shape in enumerate(acts):
         drive(shape, 't%d_%d' % (tid, j), out)
 '''
-SHAPES = ("rec", "super", "catch", "pass", "gen", "nest", "leaf", "swap")
-FUNCS = ("rec", "work", "catcher", "passer", "thrower", "leaf", "usegen", "gen", "nest", "swapper")
-LINES = ("rec_call", "super_call", "catch_call", "pass_call", "gen_next", "nest_a", "nest_b", "leaf_body", "swap_a")
+SHAPES = ("rec", "super", "catch", "pass", "gen", "nest", "leaf", "swap", "hop")
+FUNCS = ("rec", "work", "catcher", "passer", "thrower", "leaf", "usegen", "gen", "nest", "swapper", "hop")
+LINES = ("rec_call", "super_call", "catch_call", "pass_call", "gen_next", "nest_a", "nest_b", "leaf_body", "swap_a", "hop_call")
+# recursion that passes through a frame of ANOTHER source file (a decorator, visitor or dispatcher of a library)
+RELAY_SRC = "def relay(fn, *args):\n    res = fn(*args)\n    return res\n"
 GEN_FUNCS = ("gen",)
 
 
@@ -256,7 +266,12 @@ def execute(s, ch):
             w.handler.new_config(trig)
             if empty_ranges:
                 empty_ranges[-1][1] = len(rec.events)
-        g = p.load({"swap_config": swap_config, "restore_config": restore_config})
+        import linecache
+        relay_file = "/simlib/relay.py"
+        linecache.cache[relay_file] = (len(RELAY_SRC), None, RELAY_SRC.splitlines(True), relay_file)
+        relay_g = {"__name__": "simlib.relay"}
+        exec(compile(RELAY_SRC, relay_file, "exec"), relay_g)
+        g = p.load({"swap_config": swap_config, "restore_config": restore_config, "relay": relay_g["relay"]})
         outs = [[] for _ in s["threads"]]
         fns = [lambda ti=ti, acts=acts: g["tmain"](ti + 1, acts, outs[ti]) for ti, acts in enumerate(s["threads"])]
         if s["sequential"]:
